@@ -31,7 +31,7 @@ Section Plain.
       destruct (IH H1) as (f & h & E & ino & Hr & [P1 P2 P3 P4 P5 P6]).
       unfold run_eff in *. rewrite fold_left_app, Hr. cbn [fold_left].
       assert (G0 : get (names f) 0 = Some ino) by (rewrite P1; reflexivity).
-      destruct o as [msg| | |n|n c]; try discriminate; unfold eff_step; cbn [step].
+      destruct o as [msg| | |n|n c| | ]; try discriminate; unfold eff_step; cbn [step].
       + unfold emit, emit_write. rewrite P2, P3.
         destruct msg as [|b msg'].
         * rewrite P4. exists f, h, (E ++ []), ino. split; [reflexivity|]. rewrite app_nil_r.
@@ -75,7 +75,7 @@ Section External.
     forall j, get (names f) j <> None -> 0 <= j <= Nb bk.
 
   Definition ext_ok (o : op) : Prop :=
-    match o with ExtReplace n _ => 0 <= n <= Nb bk | _ => True end.
+    match o with ExtReplace n _ => 0 <= n <= Nb bk | ReopenFails | ClearFails => False | _ => True end.
 
   Record InvX (f : fs) (h : handler) : Prop := {
     x_range : in_range f;
@@ -163,7 +163,7 @@ Section External.
     - apply Forall_app in Hok. destruct Hok as [Hok1 Hok2]. inversion Hok2 as [|? ? Ho _]; subst.
       destruct (IH Hok1) as (f & h & Hr & X).
       unfold run in *. rewrite fold_left_app, Hr. cbn [fold_left step].
-      destruct o as [msg| | |n|n c].
+      destruct o as [msg| | |n|n c| | ]; [ | | | | | simpl in Ho; contradiction | simpl in Ho; contradiction].
       + unfold emit. pose proof (emit_write_X f h msg X) as X1.
         destruct (emit_write f h msg) as [f1 h1].
         destruct (h_rotating h1); [apply rollover_range; exact X1 | exists f1, h1; auto].
@@ -196,3 +196,44 @@ Section External.
     destruct (get (names f) j); [discriminate | discriminate].
   Qed.
 End External.
+
+(* ------------------------------------- reopening works from any handler state *)
+(* whatever happened before (also a reopen that failed and left the handler
+   closed): reopen() and remove()+reopen() leave the handler open on the file
+   that is then at the configured path *)
+Theorem reopen_any_state : forall f h,
+  let '(f', h') := reopen f h in
+  exists ino, h_stream h' = Some ino /\ get (names f') 0 = Some ino.
+Proof.
+  intros f h. unfold reopen, open_append.
+  destruct (get (names f) 0) as [ino|] eqn:E.
+  - exists ino. split; [reflexivity | exact E].
+  - exists (next f). split; [reflexivity|]. cbn [names]. rewrite get_set. reflexivity.
+Qed.
+
+Theorem clear_any_state : forall f h,
+  let '(f', h') := clear f h in
+  exists ino, h_stream h' = Some ino /\ get (names f') 0 = Some ino /\ file f' 0 = Some [].
+Proof.
+  intros f h. unfold clear, remove, reopen, open_append.
+  rewrite unlink_names, Z.eqb_refl. cbn [next unlink names inodes].
+  exists (next f). split; [reflexivity|]. split.
+  - cbn [names]. rewrite get_set. reflexivity.
+  - unfold file, content. cbn [names inodes]. rewrite get_set. cbn [Z.eqb]. rewrite get_set, Z.eqb_refl. reflexivity.
+Qed.
+
+Example reopen_after_failure :
+  match run 10 1 [Write [1; 2; 3]; ReopenFails; Reopen; Write [4; 5]] with
+  | Ok f h => (file f 0, h_stream h)
+  | Crash => (None, None)
+  end = (Some [1; 2; 3; 4; 5], Some 1).
+Proof. vm_compute. reflexivity. Qed.
+
+(* ------------------------------------------ configured values reach the handler *)
+Theorem config_params : forall f mb bk,
+  let h := snd (handle_file f mb bk) in
+  h_maxbytes h = mb /\ h_backups h = bk /\ h_rotating h = negb (mb =? 0).
+Proof. intros f mb bk. unfold handle_file. destruct (open_append f 0). cbn. auto. Qed.
+
+Theorem config_zero_stays_zero : forall dflt, effective dflt (Some 0) = 0.
+Proof. reflexivity. Qed.
